@@ -875,8 +875,8 @@ func (w *vWorld) runCaseA(c vCase06, ci, bits int, devs map[string]*vDev, r *mra
 		if i == 2 && r.Intn(4) != 0 && c.Rel != "twin_self" && c.Rel != "twin_otherca" {
 			continue
 		}
-		if h == "after_accept" && (c.Kt != "rsa" || (c.Mut == "none" && i == 4)) {
-			continue // the pair is repeated for every mutated message
+		if h == "after_accept" && (c.Kt != "rsa" || (i == 4 && (c.Mut == "none" || c.Mut == "dg" || c.Mut == "pfx" || c.Mut == "pfxother" || c.Mut == "dgother"))) {
+			continue // the pair is repeated for every mutation of the layout in front of the digest info (header, padding, separator, shape)
 		}
 		e2 := *ev
 		e2.Hist = h
